@@ -637,6 +637,7 @@ func init() {
 		Assumptions: []string{
 			"the settlement seam (SettleHandler) replaces the on-chain deposit by newBalance on success, as the contract's OpSettle does",
 			"a store failure between a successful settlement and clearing the ledger credit is not injected (cannot be atomic with the chain)",
+			"binary + contract unit: when the Ethereum node accepts the settlement transaction but its reply is lost, the owner's retry is sent once the pool's view of the deposit has caught up with the chain (Balance event); a retry inside that moment is not judged - the pool has no way to know yet",
 		},
 		Units: func(tier string) []vh.Unit {
 			var us []vh.Unit
